@@ -20,15 +20,15 @@ func ghost_old_emitted() int { panic("ghost") }
 //@ shared gCid guarded_by atomic C18.cid.atomic
 
 // a new context carries the incremented counter: with atomic increments no two contexts share an id
-// @ assigns WithContext global(gCid), ghost.lastatomic
-// @ assigns AliasContext global(gCid), ghost.lastatomic
-// @ requires WithContext
+//@ assigns WithContext global(gCid), ghost.lastatomic
+//@ assigns AliasContext global(gCid), ghost.lastatomic
+//@ requires WithContext
 func req_WithContext(ctx context.Context) bool { return ctx != nil }
 
-// @ requires AliasContext
+//@ requires AliasContext
 func req_AliasContext(parent context.Context) bool { return parent != nil }
 
-// @ ensures WithContext C18.cid.fresh
+//@ ensures WithContext C18.cid.fresh
 func ens_WithContext(ret0 context.Context) bool {
 	cid, ok := ret0.Value(cidKey).(int)
 	return ret0 != nil && ok && cid == ghost_lastcid()
@@ -38,7 +38,7 @@ func ens_WithContext(ret0 context.Context) bool {
 func ghost_lastcid() int { panic("ghost") }
 
 // an aliased context carries exactly its source's id
-// @ ensures AliasContext C18.cid.alias
+//@ ensures AliasContext C18.cid.alias
 func ens_AliasContext(source context.Context, ret0 context.Context) bool {
 	if source == nil {
 		return true
@@ -56,32 +56,32 @@ func ens_AliasContext(source context.Context, ret0 context.Context) bool {
 //@ iface cidContext.Cid pure
 
 // each logging call hands exactly one line to the underlying logger, on every path
-// @ assigns (*loggerPlus).doPrintln ghost.emitted, ghost.line
-// @ requires (*loggerPlus).doPrintln
+//@ assigns (*loggerPlus).doPrintln ghost.emitted, ghost.line
+//@ requires (*loggerPlus).doPrintln
 func req_doPrintln(v *loggerPlus) bool { return v.logger != nil }
 
-// @ ensures (*loggerPlus).doPrintln C18.emit.once
+//@ ensures (*loggerPlus).doPrintln C18.emit.once
 func ens_doPrintln() bool { return ghost_emitted() == ghost_old_emitted()+1 }
 
-// @ assigns (*loggerPlus).doPrintf ghost.emitted, ghost.line
-// @ requires (*loggerPlus).doPrintf
+//@ assigns (*loggerPlus).doPrintf ghost.emitted, ghost.line
+//@ requires (*loggerPlus).doPrintf
 func req_doPrintf(v *loggerPlus) bool { return v.logger != nil }
 
-// @ ensures (*loggerPlus).doPrintf C18.emit.once
+//@ ensures (*loggerPlus).doPrintf C18.emit.once
 func ens_doPrintf() bool { return ghost_emitted() == ghost_old_emitted()+1 }
 
-// @ assigns (*loggerPlus).Println ghost.emitted, ghost.line
-// @ requires (*loggerPlus).Println
+//@ assigns (*loggerPlus).Println ghost.emitted, ghost.line
+//@ requires (*loggerPlus).Println
 func req_Println(v *loggerPlus) bool { return v.logger != nil }
 
-// @ ensures (*loggerPlus).Println C18.emit.once
+//@ ensures (*loggerPlus).Println C18.emit.once
 func ens_Println() bool { return ghost_emitted() == ghost_old_emitted()+1 }
 
-// @ assigns (*loggerPlus).Printf ghost.emitted, ghost.line
-// @ requires (*loggerPlus).Printf
+//@ assigns (*loggerPlus).Printf ghost.emitted, ghost.line
+//@ requires (*loggerPlus).Printf
 func req_Printf(v *loggerPlus) bool { return v.logger != nil }
 
-// @ ensures (*loggerPlus).Printf C18.emit.once
+//@ ensures (*loggerPlus).Printf C18.emit.once
 func ens_Printf() bool { return ghost_emitted() == ghost_old_emitted()+1 }
 
 // ---------- the line's prefix names the context that was passed ----------
@@ -115,18 +115,18 @@ func spec_isPrefix(p interface{}, cid int) bool {
 }
 
 // the line handed to the underlying logger is exactly the arguments given
-// @ ensures (*loggerPlus).doPrintln C18.line.args
+//@ ensures (*loggerPlus).doPrintln C18.line.args
 func ens_doPrintln_args(args []interface{}) bool {
 	return ghost_line_n() == len(args) && (len(args) < 1 || ghost_line_arg(0) == args[0]) && (len(args) < 2 || ghost_line_arg(1) == args[1])
 }
 
-// @ ensures (*loggerPlus).doPrintf C18.line.args
+//@ ensures (*loggerPlus).doPrintf C18.line.args
 func ens_doPrintf_args(format string, args []interface{}) bool {
 	return ghost_line_n() == len(args) && ghost_line_format() == format && (len(args) < 1 || ghost_line_arg(0) == args[0]) && (len(args) < 2 || ghost_line_arg(1) == args[1])
 }
 
 // Println: the first thing on the line is the prefix made from the passed context's id
-// @ ensures (*loggerPlus).Println C18.line.prefix
+//@ ensures (*loggerPlus).Println C18.line.prefix
 func ens_Println_prefix(ctx Context, a []interface{}) bool {
 	if !spec_hasCid(ctx) {
 		return true
@@ -135,7 +135,7 @@ func ens_Println_prefix(ctx Context, a []interface{}) bool {
 }
 
 // Printf: the format is prefixed and the pid and the passed context's id are the first two arguments
-// @ ensures (*loggerPlus).Printf C18.line.prefix
+//@ ensures (*loggerPlus).Printf C18.line.prefix
 func ens_Printf_prefix(ctx Context, format string, a []interface{}) bool {
 	if !spec_hasCid(ctx) {
 		return true
@@ -145,7 +145,7 @@ func ens_Printf_prefix(ctx Context, format string, a []interface{}) bool {
 }
 
 // a nil context: just '[pid]'
-// @ ensures (*loggerPlus).Println C18.line.prefix-nil
+//@ ensures (*loggerPlus).Println C18.line.prefix-nil
 func ens_Println_nil(ctx Context, a []interface{}) bool {
 	if ctx != nil {
 		return true
@@ -153,7 +153,7 @@ func ens_Println_nil(ctx Context, a []interface{}) bool {
 	return ghost_line_n() == len(a)+1 && ghost_line_arg(0) == interface{}(fmt.Sprintf("[%v] ", os.Getpid()))
 }
 
-// @ ensures (*loggerPlus).Printf C18.line.prefix-nil
+//@ ensures (*loggerPlus).Printf C18.line.prefix-nil
 func ens_Printf_nil(ctx Context, format string, a []interface{}) bool {
 	if ctx != nil {
 		return true
